@@ -11,6 +11,8 @@ import (
 	"errors"
 	"fmt"
 	"net"
+	"os"
+	"strconv"
 	"strings"
 	"sync"
 	"sync/atomic"
@@ -144,7 +146,7 @@ func (c *Conn) OnOpen(gc gnet.Conn) ([]byte, gnet.Action) {
 			var st unix.Stat_t
 			_ = unix.Fstat(d, &st)
 			c.sess.mu.Lock()
-			c.sess.UserFds = append(c.sess.UserFds, UserFd{d, st.Ino, fmt.Sprintf("Conn.Dup of conn%d", c.ID)})
+			c.sess.UserFds = append(c.sess.UserFds, UserFd{Fd: d, Ino: st.Ino, What: fmt.Sprintf("Conn.Dup of conn%d", c.ID), Of: c})
 			c.sess.mu.Unlock()
 		} else {
 			c.failf("fd-dup", "Conn.Dup failed: %v", err)
@@ -395,6 +397,7 @@ type Session struct {
 	Canaries       []*Canary
 	CanaryHits     int // canaries that landed exactly on a just-released descriptor number
 	UserFds        []UserFd
+	PolledChecks   int
 }
 
 // UserFd is a descriptor handed to the user (Dup / DupListener).
@@ -402,6 +405,59 @@ type UserFd struct {
 	Fd   int
 	Ino  uint64
 	What string
+	Of   *Conn // the connection a Conn.Dup descriptor was taken from
+}
+
+// PolledInodes lists, per inode, the entries of every epoll instance of this
+// process (/proc/self/fdinfo of the eventpoll descriptors).
+func PolledInodes() map[uint64][]string {
+	out := map[uint64][]string{}
+	ents, _ := os.ReadDir("/proc/self/fd")
+	for _, e := range ents {
+		if t, err := os.Readlink("/proc/self/fd/" + e.Name()); err != nil || t != "anon_inode:[eventpoll]" {
+			continue
+		}
+		b, err := os.ReadFile("/proc/self/fdinfo/" + e.Name())
+		if err != nil {
+			continue
+		}
+		for _, ln := range strings.Split(string(b), "\n") {
+			if !strings.HasPrefix(ln, "tfd:") {
+				continue
+			}
+			f := strings.Fields(strings.ReplaceAll(ln, ":", ": "))
+			tfd, ino := "?", uint64(0)
+			for i := 0; i+1 < len(f); i++ {
+				switch f[i] {
+				case "tfd:":
+					tfd = f[i+1]
+				case "ino:":
+					ino, _ = strconv.ParseUint(f[i+1], 16, 64)
+				}
+			}
+			out[ino] = append(out[ino], "epoll fd "+e.Name()+" entry tfd "+tfd)
+		}
+	}
+	return out
+}
+
+// VerifyNotPolled: a socket whose connection the framework has closed, and that
+// stays alive only through the descriptor Conn.Dup handed to the user, must no
+// longer be in any epoll set (close(2) alone does not remove it then).
+func (s *Session) VerifyNotPolled() {
+	s.mu.Lock()
+	ufs := append([]UserFd(nil), s.UserFds...)
+	s.mu.Unlock()
+	for _, u := range ufs {
+		if u.Of == nil || !u.Of.Closed() {
+			continue
+		}
+		var where []string
+		if !waitFor(func() bool { where = PolledInodes()[u.Ino]; return len(where) == 0 }, 2*time.Second) {
+			s.addFail(fmt.Sprintf("VERIF-KEY:fd-polled-after-close conn%d (fd %d) was closed by the framework, but its socket (kept alive by the user's %s, fd %d) is still polled: %s", u.Of.ID, u.Of.Fd, u.What, u.Fd, strings.Join(where, "; ")))
+		}
+		s.PolledChecks++
+	}
 }
 
 // VerifyUserFds checks that descriptors handed to the user are still open on the
@@ -573,6 +629,9 @@ func Run(cs Case, hooks Hooks) *Session {
 			return
 		}
 		stopped = true
+		if hooks.Canaries {
+			s.VerifyNotPolled()
+		}
 		if hooks.BeforeStop != nil {
 			hooks.BeforeStop(s)
 		}
